@@ -33,6 +33,7 @@ func init() {
 			"truncated / spliced / byte-flipped / concatenated variants, empty, BOM fragments, binary noise, 70 KB lines, 10^4-10^5 levels of nesting, lone " +
 			"escapes. Oracle: recover() around every API call; fatal runtime errors kill the child and are attributed to the case; Reads-to-terminal " +
 			"<= len(input)+2; a spin detector in the harness io.Reader (10 000 polls after EOF); per-case watchdog with a 20x solo re-run before 'hang' is claimed. " +
+			"Schema mutations include integers at the edge of their range on numeric slots and custom_func arguments that have no value on a record; the adversarial family includes dynamic xpaths that turn out boolean / numeric / string valued. " +
 			"distinct = digest(schema text) of accepted schemas + digest(error text) of rejected ones; non-trivial = accepted mutated schema or rejected with a distinct validation message.",
 		Assumptions: []string{
 			"user JavaScript that itself loops and caller-registered functions' own failures are outside the claim (the harness functions never fail by themselves)",
